@@ -33,6 +33,10 @@ checks = [
   "bounded-exhaustive enumeration of all vertex sequences over a general-position point set x tolerances on the real Simplify in isolated workers (termination is part of the property) vs exact integer simplicity and distance oracles",
   "Every vertex sequence of length 0..5 (thorough 0..6 over 16 points) over a point set with no three collinear points (verified exactly), repetitions allowed, x six tolerances is simplified by the real code in a worker with an address-space limit; termination, subsequence, endpoint, tolerance (existence of an embedding), exact simplicity preservation, input immutability and member independence are checked for every call.",
   "Trusts the integer segment-intersection test in checks/c13; a worker silent for 60 s or dead counts as non-termination of the announced case.", "4/C13"),
+ ("C14", MC, "E1",
+  "bounded-exhaustive enumeration of polygon catalogue x type casts x all simple 2-3-vertex polylines of an offset lattice (and two-member multi-line strings, and clip sequences on one shared polygon value) on the real Clip vs exact crossing parameters and even-odd classification",
+  "Every simple open polyline of 2-3 vertices over the offset lattice is clipped against each of 15 shapes in each applicable type; the clipped length must equal the reference inside length, every result vertex must lie on the line and in the polygon, emptiness must match, and the polygon argument must be unchanged (also across sequences of clips on the same value).",
+  "Trusts mc/exact predicates and float evaluation of crossing parameters on exactly representable inputs; pairs not in general position are skipped by an exact test.", "4/C14"),
  ("C15", MC, "E1",
   "bounded-exhaustive enumeration of derived geometry pairs (perturbation patterns, all member permutations, all ring rotations, every single displacement, deletion, duplication, reversal, type change) on the real Similar vs the truth table of the statement, both directions",
   "For 19 base geometries of all eight types and two tolerances every derived geometry of the listed kinds is compared in both directions; the expected value follows from the statement alone.",
